@@ -165,12 +165,13 @@ type hopOut struct {
 	RTTUs int64  `json:"rtt_us"`
 	Dest  bool   `json:"dest"`
 	Reach bool   `json:"reach"`
+	Names []string `json:"names"`
 }
 
 func hopsOf(run *result.TracerouteRun) []hopOut {
 	hs := []hopOut{}
 	for _, h := range run.Hops {
-		o := hopOut{TTL: h.TTL, RTTUs: int64(math.Round(h.RTT * 1000)), Dest: h.IsDest, Reach: h.Reachable}
+		o := hopOut{TTL: h.TTL, RTTUs: int64(math.Round(h.RTT * 1000)), Dest: h.IsDest, Reach: h.Reachable, Names: []string{}}
 		if len(h.IPAddress) > 0 {
 			if a, ok := netip.AddrFromSlice(h.IPAddress); ok {
 				o.Addr = a.Unmap().String()
@@ -205,6 +206,11 @@ func errInfo(err error) map[string]any {
 	for _, op := range []string{"newsink", "newsource", "setfilter", "setdeadline", "read", "write", "close_sink", "close_source"} {
 		if errors.Is(err, wire.SentinelFor(op)) {
 			causes = append(causes, op)
+			for r := 1; r <= 64; r++ {
+				if errors.Is(err, wire.SentinelForRun(op, r)) {
+					causes = append(causes, fmt.Sprintf("%s@%d", op, r))
+				}
+			}
 		}
 	}
 	m["causes"] = causes
